@@ -74,9 +74,10 @@ def _history(draw, maxlen=25):
         elif kind == "add_file":
             ops.append({"op": kind, "ks": draw(st.lists(K, min_size=1, max_size=4))})
         elif kind in ("rm_idx", "rm_inst"):
-            ops.append({"op": kind, "i": draw(I)})
+            # (an index may be given from the end, as Python lists take it: -1 is the last reaction)
+            ops.append({"op": kind, "i": draw(I), "from_end": draw(st.integers(0, 3)) == 0})
         elif kind in ("rm_idxs", "rm_insts"):
-            ops.append({"op": kind, "is": draw(st.lists(I, min_size=1, max_size=4))})
+            ops.append({"op": kind, "is": draw(st.lists(I, min_size=1, max_size=4)), "from_end": draw(st.integers(0, 3)) == 0})
         elif kind == "allow":
             ops.append({"op": kind, "names": draw(st.one_of(st.just([]), sub, st.just(list(names))))})
         elif kind == "require":
@@ -283,7 +284,9 @@ def run_api(case, failures):
             if n == 0:
                 continue
             i = op["i"] % n
-            net.remove_reaction(i)
+            net.remove_reaction(i - n if op.get("from_end") else i)
+            if op.get("from_end"):
+                labels.add("index-from-the-end")
             model.held.pop(i)
             labels.add("removal")
         elif o == "rm_idxs":
@@ -293,7 +296,11 @@ def run_api(case, failures):
             idxs = set(raw)
             if len(raw) != len(idxs):
                 labels.add("index-named-twice")
-            net.remove_reaction(list(raw))
+            if op.get("from_end"):
+                labels.add("index-from-the-end")
+                net.remove_reaction([raw[0] - n] + list(raw[1:]))  # the first one counted from the end
+            else:
+                net.remove_reaction(list(raw))
             model.held = [e for j, e in enumerate(model.held) if j not in idxs]
             labels.add("removal")
         elif o == "rm_inst":
